@@ -40,14 +40,9 @@ Fixpoint fold_res {A B : Type} (f : B -> A -> res B) (l : list A) (b : B) : res 
   | a :: t => do b' <- f b a; fold_res f t b'
   end.
 
-(* lines 1208-1210: what the code reads about the previous year, ValueError for year 0 *)
-Definition last_year_info (year : Z) : res (Z * Z) :=
-  do _ <- date_ord (year - 1) 1 1;
-  Ok (Cal.weekday (year - 1) 1 1, year_len (year - 1)).
-
-(* lines 1153-1221, with rr._byweekno truthy; `linfo` is evaluated by the code only where the
-   model uses it (inside the `-1 not in byweekno` branch) *)
-Definition build_wnomask_core (linfo : res (Z * Z)) (ylen ywd wk : Z) (wdm : list Z) (bwn : list Z)
+(* lines 1194-1243, with rr._byweekno truthy.  lylen / nylen = length of the previous / next year
+   (the code computes 365+calendar.isleap(year-1) and reads self.nextyearlen). *)
+Definition build_wnomask_core (lylen nylen ylen ywd wk : Z) (wdm : list Z) (bwn : list Z)
   : res (list Z) :=
   let mask0 := py_repeat 0 (ylen + 7) in
   let firstwkst := (7 - ywd + wk) mod 7 in
@@ -62,28 +57,32 @@ Definition build_wnomask_core (linfo : res (Z * Z)) (ylen ywd wk : Z) (wdm : lis
                   if negb (no1wkst =? firstwkst) then i0 - (7 - firstwkst) else i0)
                else no1wkst in
       mark_week 7 wdm wk mask i) bwn mask0;
+  (* week 1 of next year = week -(number of weeks of next year) *)
+  let nyearweekday := (ywd + ylen) mod 7 in
+  let nno1wkst := (7 - nyearweekday + wk) mod 7 in
+  let nwyearlen := if 4 <=? nno1wkst then nylen + (nyearweekday - wk) mod 7 else nylen - nno1wkst in
+  let nnumweeks := nwyearlen / 7 + (nwyearlen mod 7) / 4 in
   do mask2 <-
-    (if memZ 1 bwn then
+    (if memZ 1 bwn || memZ (- nnumweeks) bwn then
        let i0 := no1wkst + numweeks * 7 in
        let i := if negb (no1wkst =? firstwkst) then i0 - (7 - firstwkst) else i0 in
        if i <? ylen then mark_week 7 wdm wk mask1 i else Ok mask1
      else Ok mask1);
   if negb (no1wkst =? 0) then
-    do lnumweeks <-
+    let lnumweeks :=
       (if negb (memZ (-1) bwn) then
-         do li <- linfo;
-         let '(lyearweekday, lyearlen) := li in
+         let lyearweekday := (ywd - lylen) mod 7 in
          let lno1wkst := (7 - lyearweekday + wk) mod 7 in
-         if 4 <=? lno1wkst then Ok (52 + ((lyearlen + (lyearweekday - wk) mod 7) mod 7) / 4)
-         else Ok (52 + ((ylen - no1wkst) mod 7) / 4)
-       else Ok (-1));
+         if 4 <=? lno1wkst then 52 + ((lylen + (lyearweekday - wk) mod 7) mod 7) / 4
+         else (let lwyearlen := lylen - lno1wkst in lwyearlen / 7 + (lwyearlen mod 7) / 4)
+       else -1) in
     if memZ lnumweeks bwn then
       fold_res (fun mask i => py_set mask i 1) (zrange 0 no1wkst) mask2
     else Ok mask2
   else Ok mask2.
 
-Definition build_wnomask (year ylen ywd wk : Z) (wdm : list Z) (bwn : list Z) : res (list Z) :=
-  build_wnomask_core (last_year_info year) ylen ywd wk wdm bwn.
+Definition build_wnomask (year ylen nylen ywd wk : Z) (wdm : list Z) (bwn : list Z) : res (list Z) :=
+  build_wnomask_core (365 + (if is_leap (year - 1) then 1 else 0)) nylen ylen ywd wk wdm bwn.
 
 (* lines 1238-1252: one (first, last) range, all (wday, n) pairs *)
 Definition nwd_range (wdm : list Z) (pairs : list (Z * Z)) (mask : list Z) (rg : list Z)
@@ -118,12 +117,20 @@ Definition easter_ord (year : Z) : res Z :=
   | None => Err EValue
   end.
 
-(* lines 1255-1259: eyday = index of Easter Sunday in the year's mask *)
-Definition build_eastermask (eyday ylen : Z) (offs : list Z) : res (list Z) :=
-  fold_res (fun mask offset =>
-              if (0 <=? eyday + offset) && (eyday + offset <? ylen + 7)
+(* lines 1275-1287: eyday = index of this year's Easter Sunday in the year's mask (marks only the
+   year's own days); neyday = index of NEXT year's Easter (marks only the 7 extra days), None when
+   year = MAXYEAR *)
+Definition build_eastermask (eyday : Z) (neyday : option Z) (ylen : Z) (offs : list Z) : res (list Z) :=
+  do m1 <- fold_res (fun mask offset =>
+              if (0 <=? eyday + offset) && (eyday + offset <? ylen)
               then py_set mask (eyday + offset) 1 else Ok mask)
-           offs (py_repeat 0 (ylen + 7)).
+           offs (py_repeat 0 (ylen + 7));
+  match neyday with
+  | None => Ok m1
+  | Some e2 => fold_res (fun mask offset =>
+                 if (ylen <=? e2 + offset) && (e2 + offset <? ylen + 7)
+                 then py_set mask (e2 + offset) 1 else Ok mask) offs m1
+  end.
 
 Definition rebuild (rl : rule) (ii : iinfo) (year month : Z) : res iinfo :=
   (* 1132-1221 *)
@@ -138,7 +145,7 @@ Definition rebuild (rl : rule) (ii : iinfo) (year month : Z) : res iinfo :=
          if ylen =? 365 then (T_M365MASK, T_MDAY365MASK, T_NMDAY365MASK, T_M365RANGE)
          else (T_M366MASK, T_MDAY366MASK, T_NMDAY366MASK, T_M366RANGE) in
        do wno <- (if negb (truthy (byweekno rl)) then Ok None
-                  else do m <- build_wnomask year ylen ywd (wkst rl) wdm (opt_list (byweekno rl));
+                  else do m <- build_wnomask year ylen nylen ywd (wkst rl) wdm (opt_list (byweekno rl));
                        Ok (Some m));
        Ok (mkII (lastyear ii) (lastmonth ii) ylen nylen yord ywd mm mr mdm nmdm wdm
                 wno (nwdaymask ii) (eastermask ii))
@@ -166,7 +173,9 @@ Definition rebuild (rl : rule) (ii : iinfo) (year month : Z) : res iinfo :=
     (if truthy (byeaster rl) then
        do eo <- easter_ord year;
        let eyday := eo - yearordinal ii1 in
-       do m <- build_eastermask eyday (yearlen ii1) (opt_list (byeaster rl));
+       do ne <- (if year <? T_MAXYEAR then do eo2 <- easter_ord (year + 1); Ok (Some (eo2 - yearordinal ii1))
+                 else Ok None);
+       do m <- build_eastermask eyday ne (yearlen ii1) (opt_list (byeaster rl));
        Ok (Some m)
      else Ok (eastermask ii1));
   Ok (mkII (Some year) (Some month') (yearlen ii1) (nextyearlen ii1) (yearordinal ii1)
